@@ -27,6 +27,17 @@
 (* mention it; it is a dimension only so that every way the engine composes *)
 (* the chain is driven.                                                    *)
 (*                                                                         *)
+(* Unauthorized callback `cb` of the server (api.WithUnauthorizedCallback, *)
+(* handed by the engine to every JWT gate): "none" (not configured),       *)
+(* "silent" (writes nothing - it only logs), "header" (sets a              *)
+(* WWW-Authenticate header, writes no status), "writes401" (writes status  *)
+(* 401 and a body itself).  The statement says "otherwise the answer is    *)
+(* 401 and the handler does not run" without any condition on a callback,  *)
+(* so the verdict and the status of a denial (`deny_status`) do not mention *)
+(* it; it is a dimension so that every kind of callback is driven.  (A      *)
+(* callback that writes a status other than 401 is not offered: the        *)
+(* statement would forbid what such a configuration asks for.)             *)
+(*                                                                         *)
 (* The statement: the handler runs iff the token's HMAC signature verifies *)
 (* under the current or the previous secret and its time claims are valid; *)
 (* then the non-registered claims are visible in the context; otherwise    *)
@@ -44,16 +55,18 @@ EXTENDS Integers, Sequences, FiniteSets, TLC
 CONSTANTS Tokens,    \* set of token classes offered
           Cfgs,      \* set of route configurations
           Servers,   \* set of server constructions
+          Callbacks, \* set of unauthorized-callback kinds
           MaxReq     \* requests per behaviour
 
 VARIABLES cfg,       \* route configuration of this behaviour
           server,    \* server construction of this behaviour
+          cb,        \* unauthorized callback of this behaviour's server
           cnt,       \* parser history: secret -> successes (abstract secrets "cur", "prev")
           stale,     \* more than 24 h of timex time have passed since the parser was created
           n,         \* requests so far
           out
 
-core == <<cfg, server, cnt, stale, n>>
+core == <<cfg, server, cb, cnt, stale, n>>
 vars == <<core, out>>
 
 HS == {"HS256", "HS384", "HS512"}
@@ -73,6 +86,10 @@ Verdict(t, c) ==
   ELSE IF t.time \in {"expired", "notyet"} THEN "deny"
   ELSE IF t.time = "noclaims" THEN "either"
   ELSE "admit"
+
+\* the answer to a request that is not admitted - whatever callback is configured
+DenyStatus == 401
+AllCallbacks == {"none", "silent", "header", "writes401"}
 
 Custom == {"uid", "role"}
 Registered == {"aud", "exp", "jti", "iat", "iss", "nbf", "sub"}
@@ -134,11 +151,11 @@ Bump(h, s, st) == IF st THEN [k \in DOMAIN h |-> IF k = s THEN 1 ELSE 0]
 (* ---------------------------------------------------------------- actions *)
 
 Init ==
-  /\ cfg \in Cfgs /\ server \in Servers
+  /\ cfg \in Cfgs /\ server \in Servers /\ cb \in Callbacks
   /\ cnt = [k \in {"cur", "prev"} |-> 0]
   /\ stale = FALSE
   /\ n = 0
-  /\ out = [op |-> "config", cfg |-> cfg, server |-> server]
+  /\ out = [op |-> "config", cfg |-> cfg, server |-> server, cb |-> cb]
 
 Request(t) ==
   /\ n < MaxReq
@@ -146,15 +163,15 @@ Request(t) ==
   /\ LET s == Hit(t, cfg, cnt)
      IN cnt' = IF s = "" \/ cfg = "single" THEN cnt ELSE Bump(cnt, s, stale)
   /\ out' = [op |-> "jwt", tok |-> t, expect |-> Verdict(t, cfg), visible |-> Visible(t),
-             hidden |-> Registered]
-  /\ UNCHANGED <<cfg, server, stale>>
+             hidden |-> Registered, deny_status |-> DenyStatus]
+  /\ UNCHANGED <<cfg, server, cb, stale>>
 
 \* 25 hours of timex time pass (the parser forgets its counters on the next success)
 Advance ==
   /\ ~stale /\ n < MaxReq /\ cfg # "single"
   /\ stale' = TRUE
   /\ out' = [op |-> "advance", hours |-> 25]
-  /\ UNCHANGED <<cfg, server, cnt, n>>
+  /\ UNCHANGED <<cfg, server, cb, cnt, n>>
 
 Next == (\E t \in Tokens : Request(t)) \/ Advance
 
@@ -162,7 +179,7 @@ Spec == Init /\ [][Next]_vars
 
 (* ---------------------------------------------------------------- properties *)
 
-TypeOK == cfg \in Cfgs /\ server \in Servers /\ cnt \in [{"cur", "prev"} -> 0..MaxReq] /\ stale \in BOOLEAN /\ n \in 0..MaxReq
+TypeOK == cfg \in Cfgs /\ server \in Servers /\ cb \in Callbacks /\ Callbacks \subseteq AllCallbacks /\ cnt \in [{"cur", "prev"} -> 0..MaxReq] /\ stale \in BOOLEAN /\ n \in 0..MaxReq
 
 \* whatever the ordering state, trying the secrets one after the other decides exactly the
 \* statement's verdict: the history of earlier requests cannot change admission
@@ -178,6 +195,9 @@ AdmitShape ==
      /\ out.tok.shape = "bearer" /\ out.tok.alg \in HS /\ out.tok.key # "other"
      /\ (out.tok.key = "prev" => cfg # "single")
      /\ out.tok.time \in {"valid", "noclaims"}
+
+\* a denial is answered 401 under every callback kind (the prediction never looks at cb)
+DeniedIs401 == out.op = "jwt" => out.deny_status = 401
 
 NeverRegistered == out.op = "jwt" => out.visible \cap out.hidden = {}
 
